@@ -3,6 +3,7 @@ package verifharness
 import (
 	"fmt"
 	"io"
+	"syscall"
 
 	"github.com/Jigsaw-Code/outline-ss-server/service"
 	"github.com/Jigsaw-Code/outline-ss-server/verifrt/simnet"
@@ -60,6 +61,21 @@ func runC13(rc *RunCtx) {
 				}
 				rc.D("setup: task %d holds packet handle on %s", t, addr)
 			}
+		}
+	}
+	// In a quarter of the runs one of the binds of the concurrent phase fails
+	// (address busy): the failed call must return too and leave the manager usable.
+	if G.Draw(4) == 0 {
+		failAt := G.Draw(4)
+		nb := 0
+		w := simnet.W()
+		w.ListenFail = func(network, addr string) error {
+			nb++
+			if nb-1 == failAt {
+				simrt.Probe("bind_failed_during_concurrent_phase")
+				return syscall.EADDRINUSE
+			}
+			return nil
 		}
 	}
 	rc.Phase = "concurrent"
@@ -161,6 +177,7 @@ func runC13(rc *RunCtx) {
 			nTasks-finished, nTasks, pend, describeTasks(cyc), describeTasks(alive))
 		return
 	}
+	simnet.W().ListenFail = nil
 	rc.Phase = "usability"
 	// Every address must be usable again through the manager.
 	for i := 0; i < nAddr; i++ {
